@@ -203,6 +203,11 @@ class Gen:
         if k == "list":
             n = r.choice([0, 1, 2, 4])
             return [self.value(IFACE, depth + 1, cyc) for _ in range(n)]
+        if k == "error":
+            # a position of the interface type error: nil or an errors.New value
+            if r.random() < 0.4:
+                return None
+            return {"t": T("error"), "v": hx(r.choice([b"boom", b"", b"e\xc3\xa9", b"some error"]))}
         raise KeyError(k)
 
     def comparable_vd(self, vd):
